@@ -10,6 +10,12 @@ type dcase struct {
 	plan   string
 	pdef   byte
 	script []cmd
+	mod      string
+	modFirst bool
+}
+
+func d7(name string, budget int32, uid bool, park []string, plan string, pdef byte, script []cmd) dcase {
+	return dcase{name: name, budget: budget, uid: uid, park: park, plan: plan, pdef: pdef, script: script}
 }
 
 func sc(parts ...string) []cmd {
@@ -33,29 +39,51 @@ func directed() []dcase {
 	var ds []dcase
 	for _, uid := range []bool{true, false} {
 		ds = append(ds,
-			dcase{"idle-loss-reader-redial", 3, uid, nil, "", 'a', sc("cut", "r0", "r0")},
-			dcase{"idle-loss-second-attempt", 3, uid, nil, "ua", 'a', sc("cut", "r0", "r0")},
-			dcase{"exhausted", 2, uid, nil, "uuu", 'u', sc("cut", "r0", "r0")},
-			dcase{"exhausted-then-up", 2, uid, nil, "uuu", 'a', sc("cut", "r0", "r0")},
-			dcase{"hook-reject-then-accept", 2, uid, []string{gHook}, "ja", 'a', sc("cut", "r0", "r0", "r0", "r0")},
-			dcase{"hook-reject-exhausted", 1, uid, nil, "jj", 'u', sc("cut", "r0", "r0")},
-			dcase{"writer-overlaps-reader-stored", 2, uid, []string{gStored}, "", 'a', sc("cut", "r0", "echo", "c0", "r0", "r0")},
-			dcase{"writer-overlaps-reader-precancel", 2, uid, []string{gPrecancel}, "", 'a', sc("cut", "r0", "hold", "c0", "r0", "r0")},
-			dcase{"writer-overlaps-reader-presock", 2, uid, []string{gPresock}, "", 'a', sc("cut", "r0", "echo", "c0", "r0", "r0")},
-			dcase{"writer-overlap-hold-call", 2, uid, []string{gStored}, "", 'a', sc("cut", "r0", "hold", "c0", "r0", "r0")},
-			dcase{"second-writer-in-reset-window", 2, uid, []string{gStored, gReset}, "", 'a', sc("cut", "r0", "echo", "c0", "echo", "c0", "c1", "c1")},
-			dcase{"writer-exhausted-hook-reject", 1, uid, []string{gStored}, "ju", 'u', sc("cut", "r0", "echo", "c0", "r0")},
-			dcase{"writer-exhausted-unreachable", 1, uid, []string{gStored}, "uu", 'u', sc("cut", "r0", "echo", "c0", "r0")},
-			dcase{"loss-during-redial", 2, uid, []string{gReset}, "", 'a', sc("cut", "r0", "r0", "cut", "r0")},
-			dcase{"loss-awaiting-reply", 2, uid, nil, "", 'a', sc("hold", "cut", "r0", "r0")},
-			dcase{"loss-while-writing", 2, uid, []string{gPrelock}, "", 'a', sc("echo", "cut", "c0", "r0", "r0")},
-			dcase{"unlimited-budget", -1, uid, nil, "uuuuuuu", 'a', sc("cut", "r0", "r0")},
-			dcase{"budget-zero", 0, uid, nil, "", 'a', sc("hold", "cut", "r0")},
-			dcase{"repeated-losses", 2, uid, nil, "ua", 'a', sc("cut", "r0", "r0", "echo", "cut", "r1", "r1", "echo")},
-			dcase{"pool-saturated-reader-round", 2, uid, nil, "", 'a', sc("cut", "r0", "sat:r0", "echo")},
-			dcase{"pool-saturated-writer-round", 2, uid, []string{gStored}, "", 'a', sc("cut", "r0", "echo", "sat:c0")},
-			dcase{"pool-saturated-resurrect", 1, uid, nil, "uu", 'a', sc("cut", "r0", "r0", "echo", "sat:c0", "cut")},
-			dcase{"call-after-end-resurrects", 1, uid, nil, "uu", 'a', sc("cut", "r0", "r0", "echo", "c0")},
+			d7("idle-loss-reader-redial", 3, uid, nil, "", 'a', sc("cut", "r0", "r0")),
+			d7("idle-loss-second-attempt", 3, uid, nil, "ua", 'a', sc("cut", "r0", "r0")),
+			d7("exhausted", 2, uid, nil, "uuu", 'u', sc("cut", "r0", "r0")),
+			d7("exhausted-then-up", 2, uid, nil, "uuu", 'a', sc("cut", "r0", "r0")),
+			d7("hook-reject-then-accept", 2, uid, []string{gHook}, "ja", 'a', sc("cut", "r0", "r0", "r0", "r0")),
+			d7("hook-reject-exhausted", 1, uid, nil, "jj", 'u', sc("cut", "r0", "r0")),
+			d7("writer-overlaps-reader-stored", 2, uid, []string{gStored}, "", 'a', sc("cut", "r0", "echo", "c0", "r0", "r0")),
+			d7("writer-overlaps-reader-precancel", 2, uid, []string{gPrecancel}, "", 'a', sc("cut", "r0", "hold", "c0", "r0", "r0")),
+			d7("writer-overlaps-reader-presock", 2, uid, []string{gPresock}, "", 'a', sc("cut", "r0", "echo", "c0", "r0", "r0")),
+			d7("writer-overlap-hold-call", 2, uid, []string{gStored}, "", 'a', sc("cut", "r0", "hold", "c0", "r0", "r0")),
+			d7("second-writer-in-reset-window", 2, uid, []string{gStored, gReset}, "", 'a', sc("cut", "r0", "echo", "c0", "echo", "c0", "c1", "c1")),
+			d7("writer-exhausted-hook-reject", 1, uid, []string{gStored}, "ju", 'u', sc("cut", "r0", "echo", "c0", "r0")),
+			d7("writer-exhausted-unreachable", 1, uid, []string{gStored}, "uu", 'u', sc("cut", "r0", "echo", "c0", "r0")),
+			d7("loss-during-redial", 2, uid, []string{gReset}, "", 'a', sc("cut", "r0", "r0", "cut", "r0")),
+			d7("loss-awaiting-reply", 2, uid, nil, "", 'a', sc("hold", "cut", "r0", "r0")),
+			d7("loss-while-writing", 2, uid, []string{gPrelock}, "", 'a', sc("echo", "cut", "c0", "r0", "r0")),
+			d7("unlimited-budget", -1, uid, nil, "uuuuuuu", 'a', sc("cut", "r0", "r0")),
+			d7("budget-zero", 0, uid, nil, "", 'a', sc("hold", "cut", "r0")),
+			d7("repeated-losses", 2, uid, nil, "ua", 'a', sc("cut", "r0", "r0", "echo", "cut", "r1", "r1", "echo")),
+			d7("pool-saturated-reader-round", 2, uid, nil, "", 'a', sc("cut", "r0", "sat:r0", "echo")),
+			d7("pool-saturated-writer-round", 2, uid, []string{gStored}, "", 'a', sc("cut", "r0", "echo", "sat:c0")),
+			d7("pool-saturated-resurrect", 1, uid, nil, "uu", 'a', sc("cut", "r0", "r0", "echo", "sat:c0", "cut")),
+			d7("call-after-end-resurrects", 1, uid, nil, "uu", 'a', sc("cut", "r0", "r0", "echo", "c0")),
+		)
+	}
+	// PostDial plugins that replace the socket through Session.ModifySocket at every dial
+	// (wrapper conns, renamed addresses, the websocket mixer), before / after the verdict plugin
+	first := false
+	for _, uid := range []bool{true, false} {
+		for _, mod := range []string{"wrap", "wrapp", "ren", "ws"} {
+			first = !first
+			ds = append(ds, dcase{name: "modifysocket-" + mod + "-repeated-losses", budget: 2, uid: uid, plan: "ua", pdef: 'a',
+				script: sc("cut", "r0", "r0", "echo", "cut", "r1", "r1", "echo"), mod: mod, modFirst: first})
+		}
+		for _, mod := range []string{"wrap", "ws", "ren"} {
+			for _, f := range []bool{true, false} {
+				ds = append(ds, dcase{name: "modifysocket-" + mod + "-hook-reject-then-accept", budget: 2, uid: uid, park: []string{gReset, gHook}, plan: "ja", pdef: 'a',
+					script: sc("cut", "r0", "r0", "r0", "r0", "r0", "r0"), mod: mod, modFirst: f})
+			}
+		}
+		ds = append(ds,
+			dcase{name: "modifysocket-nop-idle-loss", budget: 3, uid: uid, pdef: 'a', script: sc("cut", "r0", "r0"), mod: "nop", modFirst: true},
+			dcase{name: "modifysocket-ws-writer-round", budget: 2, uid: uid, park: []string{gStored}, pdef: 'a', script: sc("cut", "r0", "echo", "c0", "r0", "r0"), mod: "ws", modFirst: true},
+			dcase{name: "modifysocket-ws-exhausted-then-up", budget: 2, uid: uid, plan: "uuu", pdef: 'a', script: sc("cut", "r0", "r0"), mod: "ws", modFirst: false},
+			dcase{name: "modifysocket-wrap-loss-awaiting-reply", budget: 2, uid: uid, pdef: 'a', script: sc("hold", "cut", "r0", "r0"), mod: "wrap", modFirst: false},
 		)
 	}
 	return ds
